@@ -609,6 +609,16 @@ def rule_r7(prog, res) -> None:
         raise AnalysisError(f"C10.R7: only {n} instances folded")
 
 
+def rule_r8(prog, res) -> None:
+    """the closed side survives the tree cache: what BinnedTrees writes into the binning marker of a patch (flag byte,
+    then the edges) is what it reads back — a cache that restores the other closed side is compared "equal" to a
+    request for it and its trees, binned under the old rule, are reused (= C07.R2)"""
+    from . import c07
+    from .common import shared_rule
+
+    shared_rule(res, c07.rule_r2, "C07", "C07.R2", "C10.R8")
+
+
 RULES = [
     ("C10.R1", rule_r1, QUICK),
     ("C10.R2", rule_r2, QUICK),
@@ -617,4 +627,5 @@ RULES = [
     ("C10.R5", rule_r5, QUICK),
     ("C10.R6", rule_r6, QUICK),
     ("C10.R7", rule_r7, QUICK),
+    ("C10.R8", rule_r8, QUICK),
 ]
